@@ -9,6 +9,7 @@ use routee_compass::app::compass::config::access_model::turn_delay_access_model_
 use routee_compass::app::compass::config::frontier_model::{
     combined::combined_builder::CombinedBuilder, road_class::road_class_builder::RoadClassBuilder,
     turn_restrictions::turn_restriction_builder::TurnRestrictionBuilder,
+    vehicle_restrictions::vehicle_restriction_builder::VehicleRestrictionBuilder,
 };
 use routee_compass::app::compass::config::traversal_model::{
     distance_traversal_builder::DistanceTraversalBuilder, speed_lookup_builder::SpeedLookupBuilder,
@@ -401,7 +402,20 @@ pub fn build_instance(scn: &Value) -> Result<Built, String> {
             models.push(json!({"type": "turn_restriction", "turn_restriction_input_file": path.to_str().unwrap()}));
         }
     }
+    if scn["veh_on"].as_bool().unwrap_or(false) {
+        let path = dir.join("vehicle_restrictions.csv");
+        let mut txt = String::from("edge_id,restriction_name,restriction_value,restriction_unit\n");
+        for (i, rs) in scn["vrestr"].as_array().unwrap().iter().enumerate() {
+            for r in rs.as_array().unwrap() {
+                txt.push_str(&format!("{},{},{},{}\n", i, r["kind"].as_str().unwrap(), r["val"], r["unit"].as_str().unwrap()));
+            }
+        }
+        std::fs::write(&path, txt).unwrap();
+        models.push(json!({"type": "vehicle_restriction", "vehicle_restriction_input_file": path.to_str().unwrap()}));
+        query["vehicle_parameters"] = scn["veh"].clone();
+    }
     let registry: HashMap<String, Rc<dyn FrontierModelBuilder>> = HashMap::from([
+        (String::from("vehicle_restriction"), Rc::new(VehicleRestrictionBuilder {}) as Rc<dyn FrontierModelBuilder>),
         (String::from("road_class"), Rc::new(RoadClassBuilder {}) as Rc<dyn FrontierModelBuilder>),
         (String::from("turn_restriction"), Rc::new(TurnRestrictionBuilder {}) as Rc<dyn FrontierModelBuilder>),
     ]);
@@ -821,6 +835,39 @@ pub fn gen_scenario(r: &mut StdRng, o: &GenOpts) -> Value {
         }
         scn["bad"] = json!(bad);
         scn["force_turn_model"] = json!(true);
+    }
+    scn["veh_on"] = json!(false);
+    scn["vrestr"] = json!(vec![json!([]); ne]);
+    scn["veh"] = json!({"height": [3, "meters"], "width": [8, "feet"], "total_length": [400, "inches"],
+                        "trailer_length": [5, "meters"], "total_weight": [10, "tons"], "number_of_axles": 3});
+    let with_veh = match o.focus.as_str() {
+        "c04" => r.gen_bool(0.5),
+        "c05" => r.gen_bool(0.3),
+        _ => r.gen_bool(0.1),
+    };
+    if with_veh {
+        // limits are drawn from values at least 2 % away from the vehicle's value after conversion
+        let table: [(&str, &[(i64, &str)]); 6] = [
+            ("maximum_height", &[(2, "meters"), (4, "meters"), (8, "feet"), (12, "feet"), (100, "inches"), (140, "inches")]),
+            ("maximum_width", &[(2, "meters"), (3, "meters"), (7, "feet"), (9, "feet"), (90, "inches"), (100, "inches")]),
+            ("maximum_length", &[(9, "meters"), (11, "meters"), (30, "feet"), (36, "feet"), (380, "inches"), (420, "inches")]),
+            ("maximum_trailer_length", &[(4, "meters"), (6, "meters"), (15, "feet"), (18, "feet"), (180, "inches"), (210, "inches")]),
+            ("maximum_total_weight", &[(9, "tons"), (11, "tons"), (19000, "pounds"), (21000, "pounds"), (8500, "kg"), (9500, "kg")]),
+            ("maximum_weight_per_axle", &[(3, "tons"), (4, "tons"), (6000, "pounds"), (7000, "pounds"), (2900, "kg"), (3200, "kg")]),
+        ];
+        let vr: Vec<Value> = (0..ne)
+            .map(|_| {
+                let mut rs = vec![];
+                for _ in 0..(if r.gen_bool(0.5) { 0 } else { r.gen_range(1..=2) }) {
+                    let (k, opts) = table[r.gen_range(0..6)];
+                    let (v, u) = opts[r.gen_range(0..opts.len())];
+                    rs.push(json!({"kind": k, "val": v, "unit": u}));
+                }
+                json!(rs)
+            })
+            .collect();
+        scn["veh_on"] = json!(true);
+        scn["vrestr"] = json!(vr);
     }
     if o.focus == "c10" || r.gen_bool(0.1) {
         if r.gen_bool(0.7) {
